@@ -245,8 +245,17 @@ inline void on_signal(int sig) {
 }
 inline void install_death_hooks() {
   if (__sanitizer_set_death_callback) __sanitizer_set_death_callback(death_dump);
+  // alternate stack so that a stack overflow in the code under test still leaves a replay file
+  static char altstack[1 << 16];
+  stack_t ss;
+  ss.ss_sp = altstack; ss.ss_size = sizeof altstack; ss.ss_flags = 0;
+  sigaltstack(&ss, nullptr);
+  struct sigaction sa;
+  memset(&sa, 0, sizeof sa);
+  sa.sa_handler = on_signal;
+  sa.sa_flags = SA_ONSTACK;
+  sigaction(SIGSEGV, &sa, nullptr);
   signal(SIGABRT, on_signal);
-  signal(SIGSEGV, on_signal);
   signal(SIGBUS, on_signal);
   signal(SIGFPE, on_signal);
   signal(SIGILL, on_signal);
